@@ -26,11 +26,20 @@ MCSchedulesNeg ==
 MCSpanLensQuick == {0, 3, 9, 10, 25, 40}
 MCSpanLensThorough == 0..61
 
-MCSourceLists == { <<"db.rp">>, <<"db.rp2">>, <<"other.rp">>, <<"db.rp", "db.rp2">>, <<"db.rp", "other.rp">>, <<"other.rp", "db.rp">>, <<"db.rp", "db.rp">> }
+\* declarable pairs; sources may also name pairs outside (other."" , bare)
+MCDBRPs == { Src("db", "rp"), Src("db", "rp2"), Src("db", "autogen"), Src("db", ""), Src("other", "rp") }
+MCDefaultRPs == { "", "autogen", "rp" }
+MCSourceLists == { <<Src("db", "rp")>>, <<Src("db", "rp2")>>, <<Src("other", "rp")>>, <<Src("db", "rp"), Src("db", "rp2")>>,
+                   <<Src("db", "rp"), Src("other", "rp")>>, <<Src("other", "rp"), Src("db", "rp")>>, <<Src("db", "rp"), Src("db", "rp")>> }
+\* every way of writing one or two FROM items: full, without rp, bare - for two databases
+MCFormSrcs == { SrcOf(f, db, rp) : f \in SrcForms, db \in {"db", "other"}, rp \in {"rp", "autogen"} }
+MCFormLists == { <<a>> : a \in MCFormSrcs } \cup { <<a, b>> : a, b \in MCFormSrcs }
 \* children of the batch source: a single |query with each FROM clause, and every sequence of 2..4 nodes
 \* over {|queryFlux, |query FROM db.rp, |query FROM other.rp, |query FROM db.rp, other.rp}
-MCChildAlpha == { Child("flux", <<>>), Child("ql", <<"db.rp">>), Child("ql", <<"other.rp">>), Child("ql", <<"db.rp", "other.rp">>) }
-MCChildLists == { << Child("ql", sl) >> : sl \in MCSourceLists }
+MCChildAlpha == { Child("flux", <<>>), Child("ql", <<Src("db", "rp")>>), Child("ql", <<Src("other", "rp")>>),
+                  Child("ql", <<Src("db", "rp"), Src("other", "rp")>>) }
+MCChildLists == { << Child("ql", sl) >> : sl \in MCSourceLists \cup MCFormLists }
                 \cup UNION { [1..n -> MCChildAlpha] : n \in 2..4 }
-MCChildListsNeg == UNION { [1..n -> MCChildAlpha] : n \in 1..2 }
+MCChildListsNeg == UNION { [1..n -> MCChildAlpha] : n \in 1..2 } \cup { << Child("ql", sl) >> : sl \in MCFormLists }
+MCNoDBRPs == {}
 =============================================================================
